@@ -941,6 +941,40 @@ func propC20(r *Run, w *World) {
 		}
 	}
 
+	// the consumers use these two tables (a private reverse table built from the number → name
+	// map would lose the aliases EWOULDBLOCK and EDEADLOCK)
+	for _, spec := range []struct{ pkg, fn, table, what string }{
+		{"rule", "getExitCode", "auparse.AuditErrnoToNum", "errno names in -F exit= are resolved"},
+	} {
+		fn, err := w.Func(spec.pkg, spec.fn)
+		if err != nil {
+			r.Anchor(err)
+			continue
+		}
+		n, other := 0, ""
+		for _, f := range append([]*ssa.Function{fn}, fn.AnonFuncs...) {
+			instrsOf(f, func(in ssa.Instruction) {
+				lk, ok := in.(*ssa.Lookup)
+				if !ok {
+					return
+				}
+				mt, isMap := lk.X.Type().Underlying().(*types.Map)
+				if !isMap {
+					return
+				}
+				if b, isB := mt.Key().Underlying().(*types.Basic); !isB || b.Info()&types.IsString == 0 {
+					return
+				}
+				if Term(lk.X) == spec.table {
+					n++
+				} else {
+					other = Term(lk.X)
+				}
+			})
+		}
+		r.Check(n >= 1 && other == "", spec.fn+" uses "+spec.table, fn.Pos(), "", fmt.Sprintf("%s through %s, not through %s (every alias name of the table must resolve)", spec.what, other, spec.table))
+	}
+
 	// R3 arches
 	r.Rule("C20.R3", "architectures: AuditArchNames is injective and agrees with the kernel's AUDIT_ARCH_* values; every architecture name used by getRuntimeArch/getArch/getDisplayArch/ToCommandLine is a value of it and has a syscall table where one is needed; the ppc aliases point at an existing table", 60)
 	r.Rules["C20.R3"].Exact = true
